@@ -6,6 +6,8 @@ def stages(tier):
          "timeout": 300, "timeout_thorough": 1800},
         {"name": "e2e", "cmd": "fresh", "args": ["-prop", "C04"], "check": "Check.FreshHistory.check_hist_c04",
          "timeout": 300, "timeout_thorough": 1800},
+        {"name": "retry416", "cmd": "relayx", "args": ["-prop", "C04x"], "check": "a marked-uncacheable 200 obtained through the 416 retry is never reused (direct)",
+         "timeout": 300, "timeout_thorough": 600},
     ]
 
 TRUSTED = [
